@@ -123,6 +123,7 @@ func c19values(p int) map[string]*variants.Variant {
 		"d": variants.VariantFromLong(int64(-100 * p)), "s": variants.VariantFromString(fmt.Sprintf("s%d", p)),
 		"arr": variants.VariantFromArray([]*variants.Variant{variants.VariantFromInteger(p), variants.VariantFromInteger(p + 2), variants.VariantFromString("x"), variants.VariantFromDouble(float64(p) + 1.5)}),
 		"f":   variants.VariantFromFloat(float32(p) + 0.25), "t": variants.VariantFromBoolean(p%2 == 0), "n": variants.EmptyVariant(),
+		"when": variants.VariantFromDateTime(time.Unix(1700000000+int64(p)*86400, 0).In(time.FixedZone("east", 3*3600+1800))), "span": variants.VariantFromTimeSpan(time.Duration(p) * 90 * time.Minute),
 		"big": variants.VariantFromInteger(100 + p), "lbig": variants.VariantFromLong(int64(70 + p)),
 		"arrn": variants.VariantFromArray([]*variants.Variant{variants.VariantFromInteger(p), variants.EmptyVariant(), variants.VariantFromInteger(p + 2), variants.EmptyVariant(), variants.VariantFromString("x")}),
 	}
@@ -240,6 +241,10 @@ func (s *c19subject) snapshot() string {
 			for _, f := range fc.GetAll() {
 				sb.WriteString(f.Name() + ",")
 			}
+		}
+		sb.WriteString("|defaults:")
+		for _, f := range s.calc.DefaultFunctions().GetAll() {
+			sb.WriteString(f.Name() + ",")
 		}
 	} else {
 		sb.WriteString(tokDigest(s.tmpl.ResultTokens()))
@@ -812,7 +817,9 @@ func genC19(g *Gen) {
 		{"calc", "c ^ 2 + a"}, {"calc", "arr[3] ^ 2 - f ^ b"}, {"calc", "-c + Abs(c) + Round(f)"}, {"calc", "NOT t OR n IS NULL"}, {"calc", "s + a + c"},
 		{"calc", "If(n IS NULL, c, a) * c"}, {"calc", "Ceil(c) + c"}, {"calc", "Floor(c) * 2 + c"}, {"calc", "Round(c) - c + Trunc(c)"}, {"calc", "Sqrt(c) + Exp(c) + c"},
 		{"calc", "Ln(c) + Log10(c) + Log(c) + c"}, {"calc", "Sin(c) + Cos(c) + Tan(c) + c"}, {"calc", "Atan(c) + Asin(c / 10) + Acos(c / 10) + c"}, {"calc", "Abs(c) + Ceiling(c) + Truncate(c) + c"},
-		{"calc", "Min(c, c) + Max(c, c) + Sum(c, c) + c"}, {"calc", "Empty(c) OR Contains(s, s) OR t"}, {"calc", "Abs(d) + d + Abs(-f)"}, {"calc", "Min(d, a) - Max(d, c)"}, {"calc", "Max(c, f) / c"}, {"calc", "a % b + (a << 1) - d"},
+		{"calc", "Min(c, c) + Max(c, c) + Sum(c, c) + c"}, {"calc", "MAX(a, b) + min(c, d) + sUM(a, b) + ABS(d) + rOUND(f)"}, {"calc", "ARRAY(a, b)[1] + contains(s, 's') + IF(t, a, b)"},
+		// the result IS one of the caller's own values (a variable, an argument picked by a function, an array element)
+		{"calc", "when"}, {"calc", "If(t, when, when)"}, {"calc", "Max(when, when)"}, {"calc", "Choose(1, when, span)"}, {"calc", "arr[3]"}, {"calc", "span"}, {"calc", "If(NOT t, c, f)"}, {"calc", "Array(when, c)[0]"}, {"calc", "when - span"}, {"calc", "Empty(c) OR Contains(s, s) OR t"}, {"calc", "Abs(d) + d + Abs(-f)"}, {"calc", "Min(d, a) - Max(d, c)"}, {"calc", "Max(c, f) / c"}, {"calc", "a % b + (a << 1) - d"},
 		{"calc", "Sum('a', 'b', 'c', 'd', 'e', 'f', 'g', 'h', 'i', 'j')"}, {"calc", "Sum(s, 'b', s, 'c', s, 'd', s, 'e', s, 'f') + s"}, {"calc", "Sum(1, 2, 3, 4, 5, 6, 7, 8, 9, 10, a) + Max(a, 1, 2, 3, 4, 5, 6, 7, 8, 9)"},
 		{"calc", "big + (1 << big)"}, {"calc", "(a >> 70) + 70 + (1 << 65)"}, {"calc", "(a << lbig) + lbig"}, {"calc", "Concat(s, 'x', s) + s"}, {"calc", "arr[0] + Array(a, b, s)[2] + Sum(arr[0], arr[1])"},
 		{"calc", "(n IN arrn) OR (b IN arrn) OR arrn[2] = b"}, {"calc", "(a NOT IN arrn) AND arrn[1] IS NULL AND arrn[4] = 'x'"}, {"calc", "If(s IN arrn, arrn[0], arrn[2]) + a"},
